@@ -24,6 +24,10 @@ TOPO = {
     'balls4': dict(switches={'bd_trough': ['s_t1', 's_t2', 's_t3'], 'bd_plunger': ['s_plunger'], 'bd_lock': []},
                    target={'bd_trough': 'bd_plunger', 'bd_plunger': 'pf', 'bd_lock': 'pf'}, cap='MCCap4', tgt='MCTarget4',
                    entrance={'bd_lock': 's_lock_entrance'}, holding=['bd_lock']),
+    # the first topology inside a running game: ball save without limit (every drain is saved, re-ejected after 2 s),
+    # further balls are requested by a multiball device
+    'balls5': dict(switches={'bd_trough': ['s_t1', 's_t2', 's_t3'], 'bd_plunger': ['s_plunger'], 'bd_lock': ['s_lock1', 's_lock2']},
+                   target={'bd_trough': 'bd_plunger', 'bd_plunger': 'pf', 'bd_lock': 'pf'}, cap='MCCap5', tgt='MCTarget5', game=True),
 }
 _H = {}
 
@@ -46,6 +50,7 @@ class World:
         self.pending = 0               # world moves scheduled and not done yet
         self.fired = set()             # devices whose coil was pulsed and whose ball has not reacted yet
         self.HOLDING = TOPO[topo].get('holding', [])
+        self.GAME = bool(TOPO[topo].get('game'))
         self.released = {}             # holding device -> released balls that have not left yet
         self.want = 0
 
@@ -137,7 +142,8 @@ class World:
             return
         b = balls[0]
         self.loc[b] = ('transit', 'pf', 'bd_trough', 'ok')
-        self.want = max(0, self.want - 1)
+        if not self.GAME:       # (in the game topology every drain is saved: the ball is owed back)
+            self.want = max(0, self.want - 1)
         self.log(op='drain', b=b)
         self.later(1.0, self.arrive, b)
 
@@ -186,6 +192,21 @@ class World:
         self.m.events.post('hold_release')
 
     def request(self):
+        if self.GAME:
+            if self.m.game is None:
+                self.want += 1
+                self.log(op='request')
+                self.m.switch_controller.process_switch('s_start', 1, logical=True)      # game start: ball 1 is requested
+                self.m.switch_controller.process_switch('s_start', 0, logical=True)
+                return
+            if self.want >= 3:
+                return
+            self.want += 1
+            self.log(op='request')
+            # multiball (ball_count_type: add, 1 ball): one more ball in play; while it counts its balls down a further
+            # ball is an add-a-ball
+            self.m.events.post('mb_add' if self.m.multiballs['mb'].balls_live_target > 0 else 'mb_start')
+            return
         self.want += 1
         self.log(op='request')
         self.m.playfield.add_ball(1)
@@ -250,7 +271,8 @@ def _exec(sched, seed, topo):
             idle = all(m.ball_devices[d].state == 'idle' for d in DEVS)
             held = sum(len(w.at(d)) for d in w.HOLDING)
             w.log(op='rest', known=int(m.ball_controller.num_balls_known), idle=bool(idle), pending=pending,
-                  states=[str(m.ball_devices[d].state) for d in DEVS], _over=len(w.at('pf')) - min(w.want, 3 - held))
+                  states=[str(m.ball_devices[d].state) for d in DEVS], _over=len(w.at('pf')) - min(w.want, 3 - held),
+                  _phys=dict({d: len(w.at(d)) for d in DEVS}, pf=len(w.at('pf'))))
 
         for si, s in enumerate(sched):
             op = s['op']
@@ -313,10 +335,11 @@ CONSTANTS
   Escapable = {}
   Holding = {%s}
   EntranceCounted = {%s}
+  Saved = %s
   MaxOps = %d
 %sCHECK_DEADLOCK FALSE
 """ % (spec, t['cap'], t['tgt'], ', '.join('"%s"' % d for d in t.get('holding', [])),
-       ', '.join('"%s"' % d for d in t.get('entrance', {})), maxops, extra)
+       ', '.join('"%s"' % d for d in t.get('entrance', {})), 'TRUE' if t.get('game') else 'FALSE', maxops, extra)
 
 
 def handmade():
@@ -341,6 +364,9 @@ def handmade():
         [R, AF(S, 'arrive', 'pf'), R, AF(S, 'arrive', 'pf'), R, AF(B, 'arrive', 'pf'), B, D, REL, D, D],
         [R, AF(S, 'arrive', 'pf'), R, AF(S, 'arrive', 'pf'), AF(B, 'arrive', 'bd_lock'), REL, R, D, D, D],
         [R, AF(S, 'arrive', 'pf'), REL, AF(S, 'arrive', 'pf'), R, D, REL, D],
+        # (game topology) two balls in play drain within the ball save's eject delay; a third is added meanwhile
+        [R, AF(R, 'arrive', 'pf'), AF(D, 'arrive', 'pf'), D, R, D],
+        [R, AF(R, 'arrive', 'pf'), AF(R, 'arrive', 'pf'), AF(D, 'arrive', 'pf'), D, D, S, D],
         [R, D, R, R, D, D],
         [R, L('bd_trough', 'back'), L('bd_plunger', 'back'), R, D],
         [R, N('bd_trough'), N('bd_trough'), R, S, S, D],
@@ -355,7 +381,7 @@ def handmade():
 def run_world(ctx):
     wd = tlc.prepare(ctx.scratch, 'BallWorld', 'ballworld')
     alljobs, alltraces, rejected = [], [], {}
-    for topo in ('balls', 'balls2', 'balls3', 'balls4'):
+    for topo in ('balls', 'balls2', 'balls3', 'balls4', 'balls5'):
         with open(wd + '/MC.cfg', 'w') as f:
             f.write(cfg_text('Spec', topo, 4 if ctx.quick else 6, 'INVARIANT TypeOK\nINVARIANT NeverOverfull\n'))
         r = tlc.expect_ok(tlc.check(wd, 'BallWorldMC', 'MC.cfg', workers=8, timeout=2000), 'BallWorld design check')
@@ -389,7 +415,8 @@ def run_world(ctx):
 
 
 CAPS = {'balls': {'bd_trough': 3, 'bd_plunger': 1, 'bd_lock': 2}, 'balls2': {'bd_trough': 3, 'bd_plunger': 2, 'bd_lock': 2},
-        'balls3': {'bd_trough': 3, 'bd_plunger': 1, 'bd_lock': 2}, 'balls4': {'bd_trough': 3, 'bd_plunger': 1, 'bd_lock': 2}}
+        'balls3': {'bd_trough': 3, 'bd_plunger': 1, 'bd_lock': 2}, 'balls4': {'bd_trough': 3, 'bd_plunger': 1, 'bd_lock': 2},
+        'balls5': {'bd_trough': 3, 'bd_plunger': 1, 'bd_lock': 2}}
 
 
 def classify(fe, topo):
@@ -404,6 +431,10 @@ def classify(fe, topo):
     if fe.get('op') == 'rest':
         if not fe.get('idle', True):
             return 'rest:not-idle:%s' % '+'.join(st for st in fe.get('states', []) if st != 'idle')
+        if '_phys' in fe and any(m.get(d) != n for d, n in fe['_phys'].items()):
+            return 'rest:count-mismatch:%s' % '+'.join(sorted(d for d, n in fe['_phys'].items() if m.get(d) != n))
+        if fe.get('_over', 0) < 0:
+            return 'rest:under-delivered'
         return 'rest:counts-or-delivery'
     if fe.get('op') == 'fire':
         # why the target has no room: a ball that left another source earlier is still rolling towards it; the target's own
@@ -415,7 +446,7 @@ def classify(fe, topo):
     return 'step:%s' % fe.get('op', '?')
 
 
-C05_KINDS = ('rest:not-idle', 'step:noleave', 'step:leave', 'step:arrive')
+C05_KINDS = ('rest:not-idle', 'rest:under-delivered', 'step:noleave', 'step:leave', 'step:arrive')
 
 
 def report(ctx, pid, jobs, traces, rejected):
@@ -426,7 +457,7 @@ def report(ctx, pid, jobs, traces, rejected):
         pe = info.get('prev_event') or {}
         kind = classify(fe, jobs[i][2])
         # progress clauses belong to C05, count clauses to C04; delivery at rest is judged by both
-        mine = kind.startswith(C05_KINDS) if pid == 'C05' else not kind.startswith('rest:not-idle')
+        mine = kind.startswith(C05_KINDS) if pid == 'C05' else not kind.startswith(('rest:not-idle', 'rest:under-delivered'))
         if kind == 'rest:counts-or-delivery':
             mine = True
         if not mine:
